@@ -216,6 +216,8 @@ class Report:
 		what = f'{job.func}({", ".join(f"{k}={v!r}" for k, v in args.items())}) fails: {rp.get("raised") or ("returned " + str(rp.get("returned")))}'
 		if rp.get('explain'):
 			what += f' | {rp["explain"]}'
+		if rp.get('confirm'):
+			what += f' | {rp["confirm"]}'
 		if cls and cls in open_classes:
 			self.known_finding(f'obligation={job.obligation} class={cls} {what}')
 			return
@@ -250,13 +252,26 @@ class Report:
 				else:
 					o['confirmed'] += 1
 
-	def run_closed(self, obligation: str, module: str, func: str, case: dict, bound: str) -> None:
+	def run_closed_many(self, items: list) -> None:
+		"""items: [(obligation, module, func, case, bound)] -- closed obligations evaluated in parallel processes"""
+		ensure_venv()
+		import concurrent.futures
+
+		def one(it):
+			t0 = time.time()
+			return replay(it[1], it[2], {}, it[3]), time.time() - t0
+		with concurrent.futures.ThreadPoolExecutor(max_workers=int(os.environ.get('VERIF_JOBS', '16'))) as ex:
+			results = list(ex.map(one, items))
+		for it, (rp, secs) in zip(items, results):
+			self.run_closed(*it, done=(rp, secs))
+
+	def run_closed(self, obligation: str, module: str, func: str, case: dict, bound: str, done=None) -> None:
 		"""closed obligation (C): a harness function without free variables, evaluated directly against the real code"""
 		ensure_venv()
 		t0 = time.time()
-		rp = replay(module, func, {}, case)
+		rp, secs = done if done else (replay(module, func, {}, case), None)
 		self.replays += 1
-		secs = time.time() - t0
+		secs = time.time() - t0 if secs is None else secs
 		if rp.get('state') == 'error':
 			self.error(f'{obligation}: {rp.get("detail")} {rp.get("traceback", "")[-800:]}')
 			return
